@@ -8,6 +8,7 @@ func init() {
 	vHarness["C09_loader"] = VerifHarness_C09_loader
 	vHarness["C09_assembler"] = VerifHarness_C09_assembler
 	vHarness["C09_names"] = VerifHarness_C09_names
+	vHarness["C09_history"] = VerifHarness_C09_history
 }
 
 // one line of a (possibly corrupted) load file; returns the text (without
@@ -72,6 +73,22 @@ func vLoadLine(kind int, legacy bool, M Address) (string, int) {
 		return "SEQ $ 1, $ 2", 4 // '94-only opcode without modifier: neither reader can represent it
 	case 19:
 		return "MUL.F $ 1, $ 2", 6 // '94-only opcode: illegal under '88
+	case 20:
+		// every modifier-less '88 opcode with every pair of '88 modes: the '88
+		// reader accepts exactly the combinations the standard allows
+		ops := []OpCode{DAT, MOV, ADD, SUB, JMP, JMZ, JMN, CMP, SLT, DJN, SPL}
+		modes := []AddressMode{IMMEDIATE, DIRECT, B_INDIRECT, B_DECREMENT}
+		o := ops[vPick("op88", 0, len(ops)-1)]
+		am := modes[vPick("am88", 0, 3)]
+		bm := modes[vPick("bm88", 0, 3)]
+		line := vOpNamesUpper[o] + " " + vModeNames[am] + " 1, " + vModeNames[bm] + " 2"
+		if !legacy {
+			return line, 4
+		}
+		if ok, _ := refLegal88(o, am, bm); ok {
+			return line, 1
+		}
+		return line, 4
 	}
 	return "JUNK", 4
 }
@@ -91,7 +108,7 @@ func VerifHarness_C10_reader() {
 	var orgVals []string
 	_ = orgVals
 	for i := 0; i < n; i++ {
-		kind := vPick("kind", 0, 19)
+		kind := vPick("kind", 0, 20)
 		if vParam("kset") == 1 {
 			// reduced set for multi-line files
 			vAssume(kind == 0 || kind == 1 || kind == 4 || kind == 9 || kind == 12 || kind == 14 || kind == 15)
@@ -369,6 +386,41 @@ func VerifHarness_C09_assembler() {
 		vAssert("roundtrip-instruction", vSameInstr(w.Code[i], d.Code[i]))
 	}
 	vAssert("roundtrip-entry-point", w.Start == d.Start)
+	vReach("end")
+}
+
+// the same canonical text read under one core size and then under another,
+// in one process, by the loader and by the assembler: what is read depends
+// on the text and the configuration in force only (signed fields reduce by
+// the current core size)
+func VerifHarness_C09_history() {
+	legacy := vParam("legacy") == 1
+	sizes := [][2]Address{{8000, 800}, {800, 8000}, {55440, 17}, {17, 8192}}[vPick("sizes", 0, 3)]
+	av := vPick("a", 1, 3)
+	bv := vPick("b", 1, 3)
+	op := "MOV.I"
+	if legacy {
+		op = "MOV"
+	}
+	text := op + " $ -" + vDec(av) + ", $ -" + vDec(bv) + "\n"
+	for _, M := range sizes {
+		cfg := NewQuickConfig(ICWS94, M, 8, 100, 1)
+		if legacy {
+			cfg.Mode = ICWS88
+		}
+		w, err := ParseLoadFile(vTextReader(text), cfg)
+		vAssert("canonical-text-is-read", err == nil && len(w.Code) == 1)
+		if err != nil || len(w.Code) != 1 {
+			return
+		}
+		vAssert("loader-reduces-by-the-current-core-size", w.Code[0].A == M-Address(av) && w.Code[0].B == M-Address(bv))
+		w2, err := CompileWarrior(vTextReader(text), cfg)
+		vAssert("canonical-text-assembles", err == nil && len(w2.Code) == 1)
+		if err != nil || len(w2.Code) != 1 {
+			return
+		}
+		vAssert("assembler-reduces-by-the-current-core-size", w2.Code[0].A == M-Address(av) && w2.Code[0].B == M-Address(bv))
+	}
 	vReach("end")
 }
 
